@@ -53,5 +53,6 @@ Lemma inventory_not_vacuous :
   existsb (fun p => match p with CPExit true true true => true | _ => false end) gen_close_paths = true /\
   Nat.leb 2 (count (fun s => match s_kind s with SMsgSend _ => true | _ => false end))= true /\
   Nat.leb 10 (count (fun s => match s_kind s with SPanic _ => true | _ => false end))= true /\
-  Nat.leb 8 (length (filter (fun s => match s with LSLocked => true | _ => false end) gen_details_states)) = true.
+  Nat.leb 8 (length (filter (fun s => match s with LSLocked => true | _ => false end) gen_details_states)) = true /\
+  Nat.leb 2 (count (fun s => match s_kind s with SNilParam _ => true | _ => false end)) = true.
 Proof. vm_compute. repeat split. Qed.
